@@ -4,4 +4,4 @@ LEVEL = 'exploration'
 
 
 def run(ctx):
-    respcommon.run(ctx, 'c17', ['cache'], ['MC_neg_null2.cfg'])
+    respcommon.run(ctx, 'c17', ['cache', 'cachewide'], ['MC_neg_null2.cfg'])
